@@ -7,7 +7,7 @@ import math
 
 import numpy as np
 
-from .geom import I, aff, apply, flatten, glyph_ops, sigma_max, translate
+from .geom import I, aff, apply, flatten_adaptive, glyph_ops, sigma_max, translate
 from .paintref import Layer, Paint, fold_single_groups
 
 Q_F2DOT14 = 1.0 / 16384
@@ -168,7 +168,7 @@ class Evaluator:
     def ops(self, name):
         if name not in self._ops:
             o = glyph_ops(self.gs, name)
-            self._ops[name] = (flatten(o, 0.01), sum(1 for op, _ in o if op != "endPath"))
+            self._ops[name] = (flatten_adaptive(o, 0.01), sum(1 for op, _ in o if op != "endPath"))
         return self._ops[name]
 
     def has_glyph(self, name):
